@@ -467,6 +467,24 @@ pub fn c09(tier: Tier) -> ! {
             (AnyState::from_group("p2", &ShapeSpec::LjTrimer(0.637556, 120., 1.)), AnyState::from_group("p1", &ShapeSpec::LjTrimer(1., 180., 2.)), "LJ trimer after a different LJ trimer"),
             (AnyState::from_group("p1g1", &ShapeSpec::Circle), AnyState::from_group("p2gg", &ShapeSpec::Trimer(0.5, 60., 1.2)), "circle after a trimer"),
         ];
+        // second pass with two-step inner loops: the step-size adaptation is live there
+        let pl_short = Pipeline { stages: vec![(60, 2, 0.02)], max_step: 0.3 };
+        let pairs2: Vec<(AnyState, AnyState, &str)> = pairs.iter().map(|(a, b, w)| (a.clone(), b.clone(), *w)).collect();
+        for (a, b, what) in pairs2 {
+            histories += 1;
+            let (a1, p1) = (a.clone(), pl_short.clone());
+            let fresh = std::thread::spawn(move || run_scored(&a1, &p1, 3)).join().unwrap_or_default();
+            let (a2, b2, p2) = (a.clone(), b.clone(), pl_short.clone());
+            let after = std::thread::spawn(move || {
+                let _ = run_scored(&b2, &p2, 5);
+                run_scored(&a2, &p2, 3)
+            })
+            .join()
+            .unwrap_or_default();
+            if fresh != after {
+                run.fail(None, &format!("result depends on what the thread optimised before ({}, two-step inner loops)", what), json!({"engine": "history", "what": what, "inner_steps": 2}));
+            }
+        }
         for (a, b, what) in pairs {
             histories += 1;
             let (a1, pl1) = (a.clone(), pl.clone());
@@ -507,14 +525,26 @@ pub fn c09(tier: Tier) -> ! {
     // (3) the real pipeline in rayon pools of 1..16 threads, and the real binary
     let mut pool_runs = 0u64;
     let pools: Vec<usize> = tier.pick(vec![1, 2, 3, 8, 16], (1..=16).collect());
-    for (label, st) in states.iter() {
+    // in p1 a translation of the molecule leaves the score unchanged up to rounding, so the last
+    // bits of the score decide acceptance: any schedule dependence of the arithmetic shows here
+    let mut pool_states = c09_states();
+    pool_states.push(("p1 trimer LJ".to_string(), AnyState::from_group("p1", &ShapeSpec::LjTrimer(0.637556, 120., 1.))));
+    pool_states.push(("p1 circle LJ".to_string(), AnyState::from_group("p1", &ShapeSpec::LjCircle)));
+    pool_states.push(("p1 square hard".to_string(), AnyState::from_group("p1", &ShapeSpec::Polygon(4))));
+    for (label, st) in pool_states.iter() {
+        for short in [false, true].iter() {
         let mut opt = BuildOptimiser::default();
-        opt.steps(tier.pick(40, 120)).inner_steps(20).kt_start(0.1).max_step_size(0.02);
+        if *short {
+            // two-step inner loops: the step-size adaptation acts after almost every loop
+            opt.steps(tier.pick(40, 120)).inner_steps(2).kt_start(0.05).max_step_size(0.2);
+        } else {
+            opt.steps(tier.pick(40, 120)).inner_steps(20).kt_start(0.1).max_step_size(0.02);
+        }
         let mut reference: Option<(String, String)> = None;
         for &t in pools.iter() {
             for rep in 0..2 {
                 pool_runs += 1;
-                match inproc_analyse(st, 5, &opt, t) {
+                match inproc_analyse(st, 9, &opt, t) {
                     Err(e) => run.fail(None, &format!("{}: pipeline failed in a pool of {} threads: {}", label, t, e), json!({"engine": "pool", "label": label, "threads": t})),
                     Ok(r) => match &reference {
                         None => reference = Some(r),
@@ -527,8 +557,12 @@ pub fn c09(tier: Tier) -> ! {
                 }
             }
         }
+        }
         // the original handed to the pipeline is untouched
-        let fresh = c09_states().into_iter().find(|(l, _)| l == label).unwrap().1;
+        let fresh = match c09_states().into_iter().find(|(l, _)| l == label) {
+            Some(f) => f.1,
+            None => continue,
+        };
         if fresh.to_string() != st.to_string() {
             run.fail(None, &format!("{}: the state handed to the pipeline was modified", label), json!({"engine": "pool", "label": label}));
         }
@@ -537,8 +571,9 @@ pub fn c09(tier: Tier) -> ! {
     let mut bin_runs = 0u64;
     let bin_threads: Vec<usize> = tier.pick(vec![1, 4, 16], vec![1, 2, 3, 4, 8, 16]);
     for args in [
-        vec!["--replications", "6", "--steps", "60", "--inner-steps", "20", "p2", "polygon", "--sides", "4"],
-        vec!["--replications", "5", "--steps", "40", "--inner-steps", "10", "--potential", "LJ", "p2mg", "trimer"],
+        vec!["--replications", "12", "--steps", "60", "--inner-steps", "20", "p2", "polygon", "--sides", "4"],
+        vec!["--replications", "10", "--steps", "40", "--inner-steps", "10", "--potential", "LJ", "p2mg", "trimer"],
+        vec!["--replications", "7", "--steps", "40", "--inner-steps", "10", "--potential", "LJ", "p1", "trimer"],
     ]
     .iter()
     {
